@@ -81,6 +81,61 @@ theorem tailRd0Rn5Rm16_refuses_bad_id (opc : BitVec 32) (o0 o1 o2 : Reg) (indexe
   simp [this] at hh
   omega
 
+/-! ### refusal: a register id that is neither 0..30 nor the SP/ZR id of the operand position is never accepted -/
+
+theorem not_checkGpId (r : Reg) (hi : Nat) (hbad : 31 ≤ r.id ∧ r.id ≠ hi) : checkGpId r hi = false := by
+  unfold checkGpId; simp; omega
+
+theorem baseRR_refuses_bad_id (d : BaseRRRow) (o0 o1 : Reg)
+    (hbad : (31 ≤ o0.id ∧ o0.id ≠ d.a_hi_id) ∨ (31 ≤ o1.id ∧ o1.id ≠ d.b_hi_id)) : ∀ ws, emitBaseRR d o0 o1 ≠ .ok ws := by
+  intro ws h
+  obtain ⟨_, _, i0, i1⟩ := baseRR_accepts_only_valid d o0 o1 ws h
+  rcases hbad with hb | hb
+  · rw [not_checkGpId _ _ hb] at i0; cases i0
+  · rw [not_checkGpId _ _ hb] at i1; cases i1
+
+theorem baseRRRR_refuses_bad_id (d : BaseRRRRRow) (o0 o1 o2 o3 : Reg)
+    (hbad : (31 ≤ o0.id ∧ o0.id ≠ d.a_hi_id) ∨ (31 ≤ o1.id ∧ o1.id ≠ d.b_hi_id) ∨ (31 ≤ o2.id ∧ o2.id ≠ d.c_hi_id) ∨ (31 ≤ o3.id ∧ o3.id ≠ d.d_hi_id)) :
+    ∀ ws, emitBaseRRRR d o0 o1 o2 o3 ≠ .ok ws := by
+  intro ws h
+  obtain ⟨_, _, _, _, i0, i1, i2, i3⟩ := baseRRRR_accepts_only_valid d o0 o1 o2 o3 ws h
+  rcases hbad with hb | hb | hb | hb
+  · rw [not_checkGpId _ _ hb] at i0; cases i0
+  · rw [not_checkGpId _ _ hb] at i1; cases i1
+  · rw [not_checkGpId _ _ hb] at i2; cases i2
+  · rw [not_checkGpId _ _ hb] at i3; cases i3
+
+theorem csel_refuses_bad (opc : Nat) (o0 o1 o2 : Reg) (cond : BitVec 64)
+    (hbad : (31 ≤ o0.id ∧ o0.id ≠ idZR) ∨ (31 ≤ o1.id ∧ o1.id ≠ idZR) ∨ (31 ≤ o2.id ∧ o2.id ≠ idZR) ∨ 16 ≤ cond.toNat) :
+    ∀ ws, emitCSel opc o0 o1 o2 cond ≠ .ok ws := by
+  intro ws h
+  obtain ⟨_, _, _, i0, i1, i2, hc⟩ := csel_accepts_only_valid opc o0 o1 o2 cond ws h
+  rcases hbad with hb | hb | hb | hb
+  · rw [not_checkGpId _ _ hb] at i0; cases i0
+  · rw [not_checkGpId _ _ hb] at i1; cases i1
+  · rw [not_checkGpId _ _ hb] at i2; cases i2
+  · omega
+
+theorem minmax_refuses_bad_id (d : BaseMinMaxRow) (o0 o1 o2 : Reg)
+    (hbad : (31 ≤ o0.id ∧ o0.id ≠ idZR) ∨ (31 ≤ o1.id ∧ o1.id ≠ idZR) ∨ (31 ≤ o2.id ∧ o2.id ≠ idZR)) :
+    ∀ ws, emitMinMaxReg d o0 o1 o2 ≠ .ok ws := by
+  intro ws h
+  obtain ⟨_, i0, i1, i2⟩ := minmax_accepts_only_valid d o0 o1 o2 ws h
+  rcases hbad with hb | hb | hb
+  · rw [not_checkGpId _ _ hb] at i0; cases i0
+  · rw [not_checkGpId _ _ hb] at i1; cases i1
+  · rw [not_checkGpId _ _ hb] at i2; cases i2
+
+theorem shiftReg_refuses_bad_id (d : BaseShiftRow) (o0 o1 o2 : Reg)
+    (hbad : (31 ≤ o0.id ∧ o0.id ≠ idZR) ∨ (31 ≤ o1.id ∧ o1.id ≠ idZR) ∨ (31 ≤ o2.id ∧ o2.id ≠ idZR)) :
+    ∀ ws, emitShiftReg d o0 o1 o2 ≠ .ok ws := by
+  intro ws h
+  obtain ⟨_, i0, i1, i2⟩ := shiftReg_accepts_only_valid d o0 o1 o2 ws h
+  rcases hbad with hb | hb | hb
+  · rw [not_checkGpId _ _ hb] at i0; cases i0
+  · rw [not_checkGpId _ _ hb] at i1; cases i1
+  · rw [not_checkGpId _ _ hb] at i2; cases i2
+
 example : emitCSel 0x1A800000 { rt := rtGp32, id := 1 } { rt := rtGp32, id := 2 } { rt := rtGp32, id := 3 } 2#64 = .ok [0x1A830041#32] := by decide
 
 end AsmjitVerif.C02
